@@ -64,6 +64,7 @@ type xhist struct {
 	nSpurious int
 	cleanups  int // conflict-log cleanups observed while some transaction was open
 	lastClean uint64
+	nonMono   bool // managed mode with commit timestamps issued in arbitrary order: serial order by timestamp is not promised
 }
 
 func newXHist(c *Ctx, o sysOpts) (*xhist, error) {
@@ -347,7 +348,10 @@ func (x *xhist) serialCheck() {
 		ok := true
 		var bad cread
 		for _, r := range c.reads {
-			if !r.Check {
+			// with commit timestamps issued out of order a later-issued commit may carry a timestamp
+			// between this transaction's read and commit timestamps (caller contract broken): only the
+			// conflict oracle at Commit and the final state are checked then
+			if !r.Check || x.nonMono {
 				continue
 			}
 			s, has := state[string(r.Key)]
@@ -421,6 +425,7 @@ func (x *xhist) serialCheck() {
 type schedCfg struct {
 	name    string
 	managed bool
+	nonMono bool // managed: commit timestamps in arbitrary order (distinct, above the discard timestamp)
 	keys    [][]byte
 	nTxn    int
 	nSteps  int
@@ -453,8 +458,10 @@ func runSchedule(c *Ctx, g schedCfg) (*xhist, error) {
 		return nil, err
 	}
 	defer x.close()
+	x.nonMono = g.nonMono
 	rng := c.Rng
-	var mts uint64 = 1 // managed: last commit ts used
+	var mts uint64 = 1 // managed: highest commit ts used
+	used := map[uint64]bool{}
 	var discardTs uint64
 	nextT := 0
 	pickKey := func() []byte { return g.keys[rng.Intn(len(g.keys))] }
@@ -472,7 +479,19 @@ func runSchedule(c *Ctx, g schedCfg) (*xhist, error) {
 	}
 	commit := func(t int) int {
 		at := uint64(0)
-		if g.managed {
+		if g.managed && g.nonMono {
+			// any unused timestamp above the discard timestamp, also below earlier commits
+			for {
+				at = discardTs + 1 + uint64(rng.Intn(int(mts-discardTs)+4))
+				if !used[at] {
+					break
+				}
+			}
+			used[at] = true
+			if at > mts {
+				mts = at
+			}
+		} else if g.managed {
 			mts += uint64(1 + rng.Intn(2))
 			at = mts
 		}
@@ -718,6 +737,56 @@ func directed(c *Ctx, kind int, managed bool) (*xhist, error) {
 		x.xset(1, []byte("q"), []byte("1"))
 		x.xcommit(1, at())
 	}
+	x.serialCheck()
+	return x, nil
+}
+
+// directedNonMono: managed mode, CommitAt timestamps issued out of order.  The conflict log is then
+// not sorted by timestamp; a long-running reader L must still conflict with every commit above its
+// read timestamp that wrote one of its reads, wherever that entry sits in the log.
+//   kind 0: L reads k @10; W1 writes k @20; W2 writes another key @5 (issued later, lower ts);
+//           L commits @30  => ErrConflict (variants: more low-ts commits after W1, W2 also writes k)
+//   kind 1: the low commit first, then the conflicting one, then another low one; and the control
+//           where the only writer of k commits at or below L's read timestamp => no conflict
+func directedNonMono(c *Ctx, kind, variant int) (*xhist, error) {
+	x, err := newXHist(c, concOpts(c, true))
+	if err != nil {
+		return nil, err
+	}
+	defer x.close()
+	x.nonMono = true
+	k, o, q := []byte("k"), []byte("other"), []byte("q")
+	w := func(t int, key []byte, at uint64) {
+		x.xbegin(t, true, at-1)
+		x.xset(t, key, []byte(fmt.Sprintf("%d", at)))
+		x.xcommit(t, at)
+	}
+	x.xbegin(1, true, 10) // L
+	x.xget(1, k)
+	if variant%2 == 1 {
+		x.xiter(1, false, nil, k) // the key is also a Seek key
+	}
+	switch kind {
+	case 0:
+		w(2, k, 20)
+		w(3, o, 5)
+		if variant >= 2 {
+			w(4, k, 7) // also writes k, but at or below L's read timestamp
+			w(5, o, 3)
+		}
+	case 1:
+		w(2, o, 6)
+		if variant >= 2 {
+			w(3, k, 9) // control: the only writer of k is at or below the read timestamp
+		} else {
+			w(3, k, 15)
+		}
+		w(4, o, 4)
+		w(5, q, 25)
+		w(6, o, 8)
+	}
+	x.xset(1, []byte("lw"), []byte("1"))
+	x.xcommit(1, 30)
 	x.serialCheck()
 	return x, nil
 }
@@ -1020,19 +1089,28 @@ func runConcSchedules(c *Ctx, c03 bool) error {
 				kind = "window-entry"
 			}
 			x, err = windowSchedule(c, w, nk)
+		case i%5 == 0 && (i/5)%11 >= 9:
+			k := (i/5)%11 - 9
+			v := (i / 55) % 4
+			kind = fmt.Sprintf("directed-nonmono-%d", k)
+			x, err = directedNonMono(c, k, v)
 		case i%5 == 0:
-			k := (i / 5) % 9
-			managed := (i/45)%2 == 1
+			k := (i / 5) % 11
+			managed := (i/55)%2 == 1
 			kind = fmt.Sprintf("directed-%d", k)
 			x, err = directed(c, k, managed)
 		default:
 			g := schedCfg{name: "random", keys: concKeys[:2+c.Rng.Intn(5)], nTxn: 2 + c.Rng.Intn(4), nSteps: 12 + c.Rng.Intn(30),
-				iter: c.Rng.Intn(3) != 0, long: c.Rng.Intn(4) == 0, managed: i%5 == 3, multi: c03 || c.Rng.Intn(5) == 0}
+				iter: c.Rng.Intn(3) != 0, long: c.Rng.Intn(4) == 0, managed: i%5 == 3 || i%10 == 7, multi: c03 || c.Rng.Intn(5) == 0}
+			g.nonMono = i%10 == 7 || (g.managed && c.Rng.Intn(4) == 0)
 			if c.Rng.Intn(6) == 0 {
 				g.wBlock = 150
 			}
 			if g.managed {
 				kind = "random-managed"
+			}
+			if g.nonMono {
+				kind = "random-managed-nonmono"
 			}
 			if g.long {
 				kind += "-long"
